@@ -328,7 +328,124 @@ theorem toMat_congr (C : Grid β) (cell : Nat → Nat → β) (nOut nEv : Nat)
   intro b hb
   exact h a b (List.mem_range.mp ha) (List.mem_range.mp hb)
 
+/-- for every `chunksize ≥ 1` and every order in which the dynamic schedule hands
+    the chunks out, the kernel returns the matrix computed cell by cell -/
+theorem kernelRun_eq_direct (z : β) (cell : Nat → Nat → β) (nOut nEv c : Nat)
+    (hc : 1 ≤ c) (order : List Nat) (ho : order.Perm (List.range (prangeChunks nEv c).length)) :
+    kernelRun z cell nOut nEv c order = directMat cell nOut nEv := by
+  unfold kernelRun
+  apply toMat_congr
+  intro a b ha hb
+  rw [runChunks_eq_runWrites, runWrites_get]
+  have : (a, b) ∈ (List.map (fun k => (prangeChunks nEv c).getD k []) order).flatten.flatMap (iterWrites nOut) := by
+    rw [mem_iterWrites]; exact ⟨ha, (mem_sched nEv c hc order ho b).mpr hb⟩
+  rw [if_pos this]
+
+theorem directMat_congr (cell cell' : Nat → Nat → β) (nOut nEv : Nat)
+    (h : ∀ a b, a < nOut → b < nEv → cell a b = cell' a b) :
+    directMat cell nOut nEv = directMat cell' nOut nEv := by
+  unfold directMat
+  apply List.map_congr_left
+  intro a ha
+  apply List.map_congr_left
+  intro b hb
+  exact h a b (List.mem_range.mp ha) (List.mem_range.mp hb)
+
 end Prange
+
+/-! ## `correlation()` on non-degenerate matrices, for an arbitrary cell function -/
+
+section Compose
+variable {R : Type} [DecidableEq R] [Zero R]
+
+theorem colOf_length {α : Type} (d : α) (M : List (List α)) (j : Nat) : (colOf d M j).length = nRows M := by
+  simp [colOf, nRows]
+
+theorem finCol_length (col : List (Ext R)) : (finCol col).length = col.length := by
+  simp [finCol]
+
+/-- a column classified "positive" has only finite entries … -/
+theorem stdClass_pos_all_fin (col : List (Ext R)) (h : stdClass col = .pos) :
+    ∀ v ∈ col, v.toFin?.isSome = true := by
+  cases col with
+  | nil => simp [stdClass] at h
+  | cons c rest =>
+    unfold stdClass at h
+    change (if ((c :: rest).all fun v => v.eqv c) = true then StdClass.zero
+      else if ((c :: rest).all fun v => v.toFin?.isSome) = true then StdClass.pos else StdClass.nan)
+        = StdClass.pos at h
+    by_cases hc : (c :: rest).all (fun v => Ext.eqv v c) = true
+    · rw [if_pos hc] at h; cases h
+    · rw [if_neg hc] at h
+      by_cases hf : (c :: rest).all (fun v => v.toFin?.isSome) = true
+      · exact List.all_eq_true.mp hf
+      · rw [if_neg hf] at h; cases h
+
+/-- … so it is the embedding of its finite entries -/
+theorem stdClass_pos_eq_fin (col : List (Ext R)) (h : stdClass col = .pos) :
+    col = (finCol col).map Ext.fin := by
+  have hall := stdClass_pos_all_fin col h
+  unfold finCol
+  rw [List.map_map]
+  conv_lhs => rw [← List.map_id col]
+  apply List.map_congr_left
+  intro v hv
+  have := hall v hv
+  cases v with
+  | fin r => rfl
+  | nan => simp [Ext.toFin?] at this
+  | pinf => simp [Ext.toFin?] at this
+  | ninf => simp [Ext.toFin?] at this
+
+/-- a "positive" column is non-empty and its finite entries are not all equal -/
+theorem stdClass_pos_not_const (col : List (Ext R)) (h : stdClass col = .pos) :
+    ¬ ∀ u ∈ finCol col, ∀ v ∈ finCol col, u = v := by
+  have he := stdClass_pos_eq_fin col h
+  have hne : finCol col ≠ [] := by
+    intro hnil
+    rw [hnil] at he
+    rw [he] at h
+    simp [stdClass] at h
+  rw [he] at h
+  exact (stdClass_fin_pos_iff (finCol col) hne).mp h
+
+/-- **`correlation()` on matrices with equal row count and only "positive"
+    columns**: for every cell function, every `allow_nan`, every `chunksize ≥ 1`
+    and every order of the chunks, the result is the matrix whose `(jj, ii)` cell
+    is the cell function on (the finite entries of) column `jj` of `semantics`
+    and column `ii` of `activations` -/
+theorem correlation_ok_direct {β : Type} (z : β) (cellFn : List R → List R → β) (a : Bool)
+    (sem act : List (List (Ext R))) (c : Nat) (hc : 1 ≤ c) (order : List Nat)
+    (ho : order.Perm (List.range (prangeChunks (nCols act) c).length))
+    (hr : nRows sem = nRows act)
+    (hpos : (∀ jj < nCols sem, stdClass (colOf .nan sem jj) = .pos) ∧
+      (∀ ii < nCols act, stdClass (colOf .nan act ii) = .pos)) :
+    correlation z cellFn a sem act c order
+      = .ok (directMat (fun jj ii =>
+          some (cellFn (finCol (colOf .nan sem jj)) (finCol (colOf .nan act ii)))) (nCols sem) (nCols act)) := by
+  have hdeg : anyDegenerate sem act = false := (anyDegenerate_eq_false_iff sem act).mpr hpos
+  unfold correlation
+  rw [if_neg (not_not.mpr hr)]
+  simp only [hdeg, Bool.and_false, Bool.false_eq_true, if_false]
+  rw [kernelRun_eq_direct _ _ _ _ c hc order ho]
+  congr 1
+  apply directMat_congr
+  intro jj ii hjj hii
+  have h1 : (colClasses sem).getD jj .nan = .pos := by
+    unfold colClasses
+    rw [List.getD_eq_getElem?_getD, List.getElem?_map, List.getElem?_range hjj]
+    exact hpos.1 jj hjj
+  have h2 : (colClasses act).getD ii .nan = .pos := by
+    unfold colClasses
+    rw [List.getD_eq_getElem?_getD, List.getElem?_map, List.getElem?_range hii]
+    exact hpos.2 ii hii
+  have h3 : ((List.range (nCols sem)).map (colOf .nan sem)).getD jj [] = colOf .nan sem jj := by
+    rw [List.getD_eq_getElem?_getD, List.getElem?_map, List.getElem?_range hjj]; rfl
+  have h4 : ((List.range (nCols act)).map (colOf .nan act)).getD ii [] = colOf .nan act ii := by
+    rw [List.getD_eq_getElem?_getD, List.getElem?_map, List.getElem?_range hii]; rfl
+  simp only [h1, h2, h3, h4, beq_self_eq_true, Bool.and_self, if_true]
+
+end Compose
 
 /-! ## field homomorphisms commute with the model (ℚ → ℝ: the driver's scalars) -/
 
